@@ -93,6 +93,30 @@ where
     }
 }
 
+#[cfg(nuts_rs_verif)]
+impl<M, R, A> NutsChain<M, R, A>
+where
+    M: Math,
+    R: rand::Rng,
+    A: AdaptStrategy<M>,
+{
+    pub fn verif_strategy(&self) -> &A {
+        &self.strategy
+    }
+
+    pub fn verif_hamiltonian(&self) -> &A::Hamiltonian {
+        &self.hamiltonian
+    }
+
+    pub fn verif_state(&self) -> &State<M, <A::Hamiltonian as Hamiltonian<M>>::Point> {
+        &self.state
+    }
+
+    pub fn verif_math(&self) -> std::cell::RefMut<'_, M> {
+        self.math.borrow_mut()
+    }
+}
+
 pub trait AdaptStrategy<M: Math>: SamplerStats<M> {
     type Hamiltonian: Hamiltonian<M>;
     type Collector: Collector<M, <Self::Hamiltonian as Hamiltonian<M>>::Point>;
